@@ -153,6 +153,12 @@ func NewError(class *Class, message string) *Object {
 
 var ExecutionAbortedError *Object
 
+// Returns true when the given value is the error
+// thrown when the execution of a thread gets aborted.
+func IsExecutionAborted(err Value) bool {
+	return err.IsReference() && err.AsReference() == Reference(ExecutionAbortedError)
+}
+
 func NewExecutionAbortedError() *Object {
 	return NewError(
 		ExecutionAbortedErrorClass,
